@@ -167,7 +167,12 @@ fn parse(h: &Value, lineno: usize, vseed: u64, cache: &mut HashMap<Vec<bool>, u6
         let starts: Vec<LState> = if fault_kind == "nostart" {
             vec![]
         } else {
-            vec![LState(p["start"].as_i64().unwrap())]
+            // a problem definition may list further start states
+            let mut v = vec![LState(p["start"].as_i64().unwrap())];
+            if let Some(s2) = p.get("start2").and_then(|x| x.as_i64()) {
+                v.push(LState(s2));
+            }
+            v
         };
         let gset: HashSet<i64> = p["goal"].as_array().unwrap().iter().map(|v| v.as_i64().unwrap()).collect();
         probs.push((starts, gset));
@@ -344,9 +349,16 @@ fn main() {
                 let feas = match starts.first() {
                     None => 2u8,
                     Some(st) => {
+                        // reachable from ANY listed start state the checker accepts (always including the
+                        // first one: an invalid first start is C01's business)
+                        let _ = st;
                         let mut seen: HashSet<i64> = HashSet::new();
-                        let mut stack = vec![st.0];
-                        seen.insert(st.0);
+                        let mut stack: Vec<i64> = Vec::new();
+                        for (k, s) in starts.iter().enumerate() {
+                            if (k == 0 || world.contains(&s.0)) && seen.insert(s.0) {
+                                stack.push(s.0);
+                            }
+                        }
                         while let Some(a) = stack.pop() {
                             for b in 0..p.topo.npoints() {
                                 if p.topo.d(a, b) == 1 && world.contains(&b) && seen.insert(b) {
@@ -363,7 +375,7 @@ fn main() {
                         }
                     }
                 };
-                pinfo.push(ProblemInfo { start: starts.first().cloned(), goal_sat: Box::new(move |s: &LState| gs.contains(&s.0)), feas });
+                pinfo.push(ProblemInfo { start: starts.first().cloned(), starts: starts.clone(), goal_sat: Box::new(move |s: &LState| gs.contains(&s.0)), feas });
             }
         }
         let geoms: Vec<LatGeom> = p.worlds.iter().map(|w| LatGeom { topo: p.topo, lvs: p.lvs, valid: w.clone() }).collect();
